@@ -232,7 +232,75 @@ fn identity(kind: &str) -> (Identity, Option<PeerId>) {
 
 const IDENTITIES: [&str; 9] = ["honest_y", "replay_x", "forged_x_signed_by_y", "ecdsa", "expired_y", "no_cert", "chain_y_then_x", "chain_x_then_y", "wrong_name_y"];
 
+/// No adversary at all: the victim gets connected with two honest networks X and W one after
+/// the other (every direction combination). Whatever either side keeps from the first handshake
+/// (tickets, caches, memos) must not colour the identity of the second connection.
+async fn scenario_two_honest(sim: Arc<Sim>, unit: Value) -> Obs {
+    let mut o = Obs::default();
+    macro_rules! viol {
+        ($k:expr, $($arg:tt)*) => { o.violations.push(($k.to_string(), format!($($arg)*))) };
+    }
+    let order = unit["order"].as_str().unwrap();
+    let ctx = format!("[two honest networks, {order}]");
+    let v = sim.start(&NodeSpec::new(V)).unwrap();
+    let x = sim.start(&NodeSpec::new(X)).unwrap();
+    let w = sim.start(&NodeSpec::new(Y)).unwrap();
+    let (vid, xid, wid) = (v.peer_id(), x.peer_id(), w.peer_id());
+    for (id, l) in [(vid, "V"), (xid, "X"), (wid, "W")] {
+        sim.labels.lock().unwrap().insert(id, l.into());
+    }
+    let (mut ev, _) = v.subscribe().unwrap();
+    let (nv, nw) = (sim.node_of(&v), sim.node_of(&w));
+    // first X, then W; "out" = the victim dials, "in" = it is dialed
+    let dirs: Vec<bool> = order.split('-').map(|d| d == "out").collect();
+    for (i, (net, id, name)) in [(&x, xid, "X"), (&w, wid, "W")].into_iter().enumerate() {
+        let r = if dirs[i] { v.connect(net.local_addr()).await } else { net.connect(v.local_addr()).await };
+        match r {
+            Ok(p) => {
+                let want = if dirs[i] { id } else { vid };
+                if p != want {
+                    viol!("impersonation", "{ctx} the connection with {name} was reported as a connection with {}", sim.label(&p));
+                }
+            }
+            Err(e) => viol!("honest-peer-rejected", "{ctx} connecting with {name} failed: {e}"),
+        }
+        tokio::time::sleep(ms(100)).await;
+    }
+    let mut listed = v.peers();
+    listed.sort();
+    let mut want = vec![xid, wid];
+    want.sort();
+    if listed != want {
+        viol!("impersonation", "{ctx} the victim lists {:?} instead of X and W", listed.iter().map(|p| sim.label(p)).collect::<Vec<_>>());
+    }
+    let news: Vec<PeerId> = drain_events(&mut ev).iter().filter_map(|e| match e { anemo::types::PeerEvent::NewPeer(p) => Some(*p), _ => None }).collect();
+    if news != vec![xid, wid] {
+        viol!("impersonation", "{ctx} the victim announced {:?} instead of X then W", news.iter().map(|p| sim.label(p)).collect::<Vec<_>>());
+    }
+    // requests in both directions between V and W carry the right identities
+    match tokio::time::timeout(ms(2_000), v.rpc(wid, Sim::request("v-to-w"))).await {
+        Ok(Ok(resp)) => {
+            if resp.peer_id() != Some(&wid) {
+                viol!("impersonation", "{ctx} a response of W is attributed to {:?}", resp.peer_id().map(|p| sim.label(p)));
+            }
+        }
+        other => viol!("honest-peer-rejected", "{ctx} rpc V->W failed: {:?}", other.map(|r| r.map(|_| ()).map_err(|e| e.to_string()))),
+    }
+    let _ = tokio::time::timeout(ms(2_000), w.rpc(vid, Sim::request("w-to-v"))).await;
+    for r in sim.svc.requests.lock().unwrap().iter() {
+        let expect = if r.node == nv { Some(wid) } else if r.node == nw { Some(vid) } else { None };
+        if expect.is_some() && r.peer_id != expect {
+            viol!("impersonation", "{ctx} a handler saw a request attributed to {:?} instead of {:?}", r.peer_id.map(|p| sim.label(&p)), expect.map(|p| sim.label(&p)));
+        }
+    }
+    o.class = format!("two honest {order}");
+    o
+}
+
 async fn scenario(sim: Arc<Sim>, unit: Value) -> Obs {
+    if unit["role"] == "two_honest" {
+        return scenario_two_honest(sim, unit).await;
+    }
     let mut o = Obs::default();
     macro_rules! viol {
         ($k:expr, $($arg:tt)*) => { o.violations.push(($k.to_string(), format!($($arg)*))) };
@@ -462,7 +530,7 @@ impl Check for C01 {
         CheckMeta {
             property: "C01",
             level: "fault_enumeration",
-            rule: "verifier layer: honest, replayed, re-signed, non-Ed25519, expired, not-yet-valid, wrong-EKU, wrong-name, concatenated certificates, every truncation and every single-byte substitution (5 values quick / all 255 thorough) of a valid certificate, offered to the client verifier, the server verifier (with and without an attached intermediate, pinned to X and to Y) and peer_id_from_certificate, against a ring + x509-parser reference; handshake-signature verifiers on all 65536 scheme codes x {right, wrong key}, every single-bit flip of a valid signature and every single-byte change of the message, for all three verifier types; system layer: adversary role {dials, is dialed, is dialed with pin X, with pin Y, is dialed with pin Y (or none) and then - with or without a disconnect in between - with pin X} x 9 presented identities x {complete, stall before the acknowledgement, close early}, the main roles also after a history in which the genuine X and the victim had connected in both directions and disconnected, with datagram-fate deviations over the handshake, and requests/responses whose contents name X; distinct = distinct (verdict class / role, admitted)".into(),
+            rule: "verifier layer: honest, replayed, re-signed, non-Ed25519, expired, not-yet-valid, wrong-EKU, wrong-name, concatenated certificates, every truncation and every single-byte substitution (5 values quick / all 255 thorough) of a valid certificate, offered to the client verifier, the server verifier (with and without an attached intermediate, pinned to X and to Y) and peer_id_from_certificate, against a ring + x509-parser reference; handshake-signature verifiers on all 65536 scheme codes x {right, wrong key}, every single-bit flip of a valid signature and every single-byte change of the message, for all three verifier types; system layer: adversary role {dials, is dialed, is dialed with pin X, with pin Y, is dialed with pin Y (or none) and then - with or without a disconnect in between - with pin X} x 9 presented identities x {complete, stall before the acknowledgement, close early}, two honest networks connected one after the other in every direction combination (no adversary: nothing kept from the first handshake may colour the second identity); the main roles also after a history in which the genuine X and the victim had connected in both directions and disconnected, with datagram-fate deviations over the handshake, and requests/responses whose contents name X; distinct = distinct (verdict class / role, admitted)".into(),
             assumptions: vec!["three fixed key pairs (victim, X, adversary Y); ring's Ed25519 and x509-parser are the trusted reference".into()],
             exhaustive: true,
         }
@@ -472,6 +540,9 @@ impl Check for C01 {
         let mut u = vec![json!({"kind":"signatures","on_death":"verifier-aborts-process"})];
         for part in 0..16 {
             u.push(json!({"kind":"verifier","part":part,"parts":16,"on_death":"verifier-aborts-process"}));
+        }
+        for order in ["out-out", "out-in", "in-out", "in-in"] {
+            u.push(json!({"kind":"system","role":"two_honest","identity":"none","behaviour":"complete","order":order,"bound":tier.pick(0, 1)}));
         }
         for role in ["dials", "dialed", "dialed_pinned_x"] {
             for ident in ["honest_y", "replay_x", "forged_x_signed_by_y", "chain_x_then_y", "chain_y_then_x"] {
